@@ -259,10 +259,13 @@ impl Scenario for C05 {
 
     fn execute(&self, plan: &Plan) -> Outcome {
         let mut spec = ProcSpec::new(self.mode.to_mode(), derive(self.run_seed, 100), derive(self.run_seed, 200));
-        spec.step_cap = 60_000 + 4_000 * self.n as u64;
+        // generous: the worst correct run observed needs about 4 000 decisions per item (priority
+        // scheduling of busy-waiting workers); see the probe max_step_cap_use_permille
+        spec.step_cap = 200_000 + 40_000 * self.n as u64;
         if let Plan::Replay { traces, strict } = plan {
             spec = spec.replaying(traces.first().cloned().unwrap_or_default(), *strict);
         }
+        let spec_cap = spec.step_cap;
         let sc = self.clone();
         let result: Arc<Mutex<Vec<u64>>> = Arc::new(Mutex::new(vec![]));
         let res2 = result.clone();
@@ -343,6 +346,7 @@ impl Scenario for C05 {
         stats.absorb_proc(&r);
         stats.param("n", self.n as i64);
         stats.probe_max("max_decisions_in_one_run", r.decisions);
+        stats.probe_max("max_step_cap_use_permille", r.decisions * 1000 / spec_cap);
         stats.param("w", self.w as i64);
         let got = result.lock().unwrap().clone();
         let violation = self.judge(&r, &got, &mut stats);
